@@ -148,6 +148,106 @@ fn hex(x: u64) -> String {
     format!("{:016x}", x)
 }
 
+/// C07 fault enumeration: for one generated chunking of writes with flushes at arbitrary points,
+/// the handle is dropped after EVERY prefix, normally and by unwinding, with the file untouched,
+/// removed, replaced by a directory, replaced by a new file, or moved meanwhile, for write and for
+/// append handles. Each combination is an explicit little history judged by the reference model.
+fn c07_enumeration(id: &str, seed: u64, idx: u64, stats: &mut Stats, known: &dyn Fn(&Violation) -> bool) -> Option<Finding> {
+    use crate::ops::{Bytes, Op};
+    let pc = props::seq_cfg(id)?;
+    let mut rng = Rng::new(mix(&[seed, hash_str("C07-enum"), idx]));
+    let knobs = pick_knobs(&mut rng);
+    let mut env = crate::refpath::Env::new();
+    env.insert("HOME".into(), "/h".into());
+    let k = rng.range(1, 5);
+    let chunks: Vec<(Vec<u8>, bool)> = (0..k)
+        .map(|i| {
+            let len = *rng.pick(&[0usize, 1, 3, 7, 64, 5000]);
+            let mut d = format!("<c{}.{}>", idx, i).into_bytes();
+            d.extend(std::iter::repeat(b'a' + (i as u8)).take(len));
+            if rng.chance(1, 6) {
+                d.clear();
+            }
+            (d, rng.chance(1, 3))
+        })
+        .collect();
+    let base: Vec<u8> = if rng.chance(1, 4) { vec![] } else { format!("<base{}>", idx).into_bytes() };
+    let file = "/d/f".to_string();
+    for append in [false, true] {
+        for j in 0..=k {
+            for unwind in [false, true] {
+                for interference in 0..5 {
+                    let mut ops = vec![Op::MkdirP { p: "/d".into() }];
+                    if !base.is_empty() || rng.chance(1, 2) {
+                        ops.push(Op::WriteAll { p: file.clone(), d: Bytes(base.clone()) });
+                    }
+                    ops.push(if append { Op::OpenAppend { h: 0, p: file.clone() } } else { Op::OpenWrite { h: 0, p: file.clone() } });
+                    for (d, flush) in chunks.iter().take(j) {
+                        ops.push(Op::HWrite { h: 0, d: Bytes(d.clone()) });
+                        if *flush {
+                            ops.push(Op::HFlush { h: 0 });
+                            ops.push(Op::ReadAll { p: file.clone() });
+                        }
+                    }
+                    match interference {
+                        1 => ops.push(Op::Remove { p: file.clone() }),
+                        2 => {
+                            ops.push(Op::Remove { p: file.clone() });
+                            ops.push(Op::MkdirP { p: file.clone() });
+                        },
+                        3 => {
+                            ops.push(Op::Remove { p: file.clone() });
+                            ops.push(Op::WriteAll { p: file.clone(), d: Bytes(b"<new>".to_vec()) });
+                        },
+                        4 => ops.push(Op::MoveP { s: file.clone(), d: "/d/g".into() }),
+                        _ => {},
+                    }
+                    if interference != 0 && rng.chance(1, 3) {
+                        ops.push(Op::HFlush { h: 0 });
+                    }
+                    ops.push(if unwind { Op::HDropUnwind { h: 0 } } else { Op::HDrop { h: 0 } });
+                    ops.push(Op::ReadAll { p: file.clone() });
+                    ops.push(Op::ReadAll { p: "/d/g".into() });
+                    ops.push(Op::Exists { p: file.clone() });
+                    let out = seq::run_seq(&pc, &knobs, &env, Source::Replay(&ops), stats, known);
+                    stats.bump("fault.drop_points_enumerated");
+                    stats.bump(match interference {
+                        0 => "fault.F1_drop_point.file_untouched",
+                        1 => "fault.F3_drop_point.file_removed",
+                        2 => "fault.F3_drop_point.file_replaced_by_dir",
+                        3 => "fault.F3_drop_point.file_replaced_by_new_file",
+                        _ => "fault.F3_drop_point.file_moved",
+                    });
+                    if unwind {
+                        stats.bump("fault.F2_drop_point.by_unwinding");
+                    }
+                    stats.distinct_cases.insert(out.log_hash);
+                    if let Some(v) = out.violations.into_iter().next() {
+                        let case = Case {
+                            format: 1,
+                            property: id.into(),
+                            world: "SEQ".into(),
+                            seed,
+                            run: idx,
+                            knobs: knobs.clone(),
+                            env: env.clone(),
+                            ops: out.ops,
+                            expect: Some(ExpectSig { sig: v.sig.clone(), step: v.step }),
+                            log_hash: hex(out.log_hash),
+                            what: v.detail.clone(),
+                        };
+                        let case = minimise_seq(&pc, case, &v.sig);
+                        let mut v = v;
+                        v.detail = case.what.clone();
+                        return Some(Finding { violation: v, case: serde_json::to_value(&case).unwrap() });
+                    }
+                }
+            }
+        }
+    }
+    None
+}
+
 /// One SEQ-world run (generation mode). Returns the first unknown violation, minimised.
 fn seq_run_index(id: &str, tier: &str, seed: u64, idx: u64, stats: &mut Stats, known: &dyn Fn(&Violation) -> bool) -> Option<Finding> {
     let pc = if id == "C20" { envw::c20_cfg() } else { props::seq_cfg(id)? };
@@ -283,6 +383,9 @@ pub fn run_index(id: &str, tier: &str, seed: u64, idx: u64, stats: &mut Stats, k
     if id == "C03" && idx % 8 == 7 {
         // "at quiescence after every explored concurrent schedule": the CONC leg of C03
         return conc::run_index(id, tier, seed, idx, stats, known);
+    }
+    if id == "C07" && idx % 160 == 3 {
+        return c07_enumeration(id, seed, idx, stats, known);
     }
     if diffw::leg(id).is_some() && idx % 8 == 5 {
         // "on both backends": the DIFF leg of this property
